@@ -232,7 +232,7 @@ def check_radius(ctx):
     if not mins or not cases:
         ctx.ob('R4', fi, 'returned radius', None, 'minimum site distance or returned value not recognised')
         return
-    M = norm_text(parse_sx(mins[0])) if parse_sx(mins[0]) is not None else mins[0]
+    M = norm_text(parse_sx(mins[0], full=True)) if parse_sx(mins[0], full=True) is not None else mins[0]
     for r, conds, e in cases:
         if e is None:
             ctx.ob('R4', fi, r, None, 'returned radius has no derivable expression')
